@@ -1156,9 +1156,10 @@ pub fn run(opts: &Options) -> FilterRepoResult<()> {
                         let path_bytes = &bytes[path_start..];
                         add_sample(&mut samples_modified, path_bytes);
                     }
-                } else if id.len() == 40 && id.iter().all(|b| b.is_ascii_hexdigit()) {
-                    // } else if id.len() == 40 && id.iter().all(|b| (b'0'..=b'9').contains(b) || (b'a'..=b'f').contains(b)) {
-                    // sha1
+                } else if (id.len() == 40 || id.len() == 64)
+                    && id.iter().all(|b| b.is_ascii_hexdigit())
+                {
+                    // object id: SHA-1 (40 hex digits) or SHA-256 (64)
                     let sha = id.to_vec();
                     if strip_sha_lookup.contains_hex(&sha)? {
                         drop_path = true;
